@@ -398,6 +398,7 @@ class SimQueue(object):
                     if s.sleep_until(end, ("put", id(self))) and self.full():
                         raise _queue.Full
         self.items.append(item)
+        self.unfinished = getattr(self, "unfinished", 0) + 1
         s.log("put", self.name, s.cur.name, _brief(item))
         s.wake(lambda t: t.blocked_on == ("get", id(self)))
 
@@ -419,6 +420,19 @@ class SimQueue(object):
         s.log("get", self.name, s.cur.name, _brief(item))
         s.wake(lambda t: t.blocked_on == ("put", id(self)))
         return item
+
+    def task_done(self):
+        self.s.point("task_done")
+        self.unfinished = getattr(self, "unfinished", 0) - 1
+        if self.unfinished < 0:
+            raise ValueError("task_done() called too many times")
+        if self.unfinished == 0:
+            self.s.wake(lambda t: t.blocked_on == ("qjoin", id(self)))
+
+    def join(self):
+        self.s.point("qjoin")
+        while getattr(self, "unfinished", 0) > 0:
+            self.s.block(("qjoin", id(self)))
 
     def put_nowait(self, item):
         return self.put(item, block=False)
